@@ -57,6 +57,27 @@ NORMS = ("l2", "l1", "linf")
 CFGS = list(ERR_CONFIGS)
 _evals = {}
 _installed = False
+_TMP = None
+
+
+def _scratch():
+    """One scratch directory per worker process (removed at interpreter exit); files are removed after each case."""
+    global _TMP
+    if _TMP is None or not os.path.isdir(_TMP):
+        import atexit
+        _TMP = tempfile.mkdtemp(prefix="c12_")
+        atexit.register(shutil.rmtree, _TMP, True)
+    return _TMP
+
+
+def _clean_scratch():
+    if _TMP is None:
+        return
+    for f in os.listdir(_TMP):
+        try:
+            os.remove(os.path.join(_TMP, f))
+        except OSError:
+            pass
 
 
 def _ev(name):
@@ -258,7 +279,7 @@ def cases(seed, tier):
                         "n": 30 if quick else 40, "seed": rng.randrange(2 ** 31)})
     for i in range(n_seq):
         out.append({"gen": "seq", "dim": [3, 3, 2, 3, 1, 4, 3, 6, 5][i % 9], "cfg": CFGS[i % len(CFGS)],
-                    "len": rng.choice([3, 5, 8, 12, 16, 24]), "mesh": ["surface", "surface", "polyline", "pointcloud", "volume"][i % 5],
+                    "len": rng.choice([3, 4, 6, 8, 12, 16]), "mesh": ["surface", "surface", "polyline", "pointcloud", "volume"][i % 5],
                     "seed": rng.randrange(2 ** 31)})
     return out
 
@@ -491,6 +512,9 @@ def run_aabb(desc, ctx):
     nb = max(3, desc["n"] // 8)
     for k in range(nb):
         typ, lo, hi = _gen_box(rng, d, mag, prev)
+        if k == nb - 1 and not any(_box_class(l, h) == "inverted" for _, l, h in boxes):
+            j = rng.randrange(d)                       # every batch owns at least one empty (inverted) box
+            lo[j], hi[j] = (hi[j], lo[j]) if lo[j] != hi[j] else (lo[j] + 1.0, lo[j])
         kind = rng.choice(KINDS)
         a_lo, a_hi = as_kind(kind, lo, sent), as_kind(kind, hi, sent)
         ok, b = sent.call("AABB", AABB, a_lo, a_hi, law_monitor="aabb")
@@ -526,7 +550,7 @@ def run_aabb(desc, ctx):
             sent.call("AABB.project", b.project, as_kind("nd", gen_vals(rng, d + 1, "unit")), expect=(Exception,), law_monitor="aabb")
             sent.call("AABB.distance", b.distance, as_kind("nd", gen_vals(rng, d, "unit")), "l3", expect=(Exception,), law_monitor="aabb")
     # box-box laws (post-conditions on the real methods decide)
-    for _ in range(max(4, desc["n"] // 4)):
+    for _ in range(desc["n"]):
         (b1, lo1, hi1), (b2, lo2, hi2) = rng.choice(boxes), rng.choice(boxes)
         op = rng.choice(("union", "intersection", "do_intersect", "or", "and"))
         if op == "union":
@@ -1381,7 +1405,7 @@ def run_seq(desc, ctx):
     rng = random.Random(desc["seed"])
     sent = Sentinel(ctx, desc["cfg"])
     base = dict(_evals)
-    tmp = tempfile.mkdtemp(prefix="c12_")
+    tmp = _scratch()
     try:
         env = _SeqEnv(ctx, sent, rng, desc["dim"], desc["mesh"], tmp)
         for _ in range(desc["len"]):
@@ -1394,7 +1418,7 @@ def run_seq(desc, ctx):
             ctx.sample({"sequence": env.log, "numpy_error_configuration": desc["cfg"], "mesh": desc["mesh"],
                         "checked_after_every_step": "argument arrays, caller arrays, sibling boxes, mesh, numpy.geterr()"})
     finally:
-        shutil.rmtree(tmp, ignore_errors=True)
+        _clean_scratch()
         _flush_evals(ctx, base)
 
 
@@ -1431,7 +1455,7 @@ def run_anchor(desc, ctx):
             do("a.pad([1,1])  # wrong dimension", "AABB.pad", a.pad, [1., 1.], modifies=(a,))
             do("b.contains_point(lo)", "AABB.contains_point", b.contains_point, lo)
     else:
-        tmp = tempfile.mkdtemp(prefix="c12_")
+        tmp = _scratch()
         try:
             V = [[0., 0., 0.], [1., 0., 0.], [1., 1., 0.], [0., 1., 0.5]]
             m = build.surface(V, [[0, 1, 2], [0, 2, 3]])
@@ -1441,7 +1465,7 @@ def run_anchor(desc, ctx):
             do("save(m, 'm.obj', ignore_elements={'faces'})", "mesh.save", Mmesh.save, m, os.path.join(tmp, "b.obj"), ignore_elements={"faces"})
             do("save(m, 'm.unknown')", "mesh.save", Mmesh.save, m, os.path.join(tmp, "c.unknown"))
         finally:
-            shutil.rmtree(tmp, ignore_errors=True)
+            _clean_scratch()
     ctx.obs("seq", "sequences")
     ctx.nontrivial("anchor:" + name)
     ctx.sample({"sequence": log, "numpy_error_configuration": desc["cfg"],
